@@ -303,7 +303,7 @@ def harnesses(tier):
                      {'tasks': nt, 'ops': _conc.ADD_OPS, 'third_party_delays': nd}, replay='adders', task_budget=60)
              for nt, nd in ([(2, 3)] if q else [(2, 6), (3, 3)])]
     for kind in range(len(STREAMS)):
-        extra.append(Harness('dropped_inside[%s]' % STREAMS[kind], _h_truncated(kind, 2 if q else 3),
+        extra.append(Harness('dropped_inside[%s]' % STREAMS[kind], _h_truncated(kind, 2),
                              {'command': STREAMS[kind], 'cut': 'every byte position', 'literal_bytes': 'symbolic'},
                              replay='truncated', task_budget=60))
     return extra + [Harness('fault_schedule[%s]' % op, _harness([op]), {'op': op, 'suspension_points': '<= 8',
